@@ -627,6 +627,9 @@ func matchesKnownSymlinkWatch(linksBefore map[string]string, ops []fsgen.Op) boo
 			if _, ok := linksBefore[o.Path]; ok {
 				return true
 			}
+			if targets[o.Path] { // creates (as a link) exactly the path an existing link points to
+				return true
+			}
 		case "write", "replace", "remove":
 			if targets[o.Path] {
 				return true
